@@ -213,6 +213,11 @@ func (e *JSchemaError) pointerToTheErrorCharacter() string {
 	spaces := content.SubLow(begin).CountSpacesFromLeft()
 
 	i := int(e.index) - int(begin) - spaces
+	if i < 0 {
+		// The error points into the leading blanks of the line, which
+		// SourceSubString does not show.
+		i = 0
+	}
 	return strings.Repeat("-", i) + "^"
 }
 
